@@ -6,8 +6,9 @@ From Synnax Require Import Common.Base Cesium.Store Cesium.IndexSearch Cesium.Di
 Import ListNotations.
 Local Open Scope Z_scope.
 
-(* one step of a history: a writer operation or a DB.Read *)
-Inductive hop := HW (o : wop) | HRead (keys : list Z) (t : tr).
+(* one step of a history: a writer operation, a DB.Read, or one pass of the garbage collector
+   (the background ticker's function; no writer session is open and none follows it) *)
+Inductive hop := HW (o : wop) | HRead (keys : list Z) (t : tr) | HGC.
 (* what the implementation answered: error class + commit end, or the series per channel
    (error class <> 0: the read failed) *)
 Inductive hobs := OW (code end_ : Z) | ORead (code : Z) (r : list (Z * list series)).
@@ -48,6 +49,9 @@ Fixpoint model_run (st : state) (ops : list hop) : state * list hobs :=
       let '(st2, os) := model_run st1 r in (st2, OW c e :: os)
   | HRead keys t :: r =>
       let '(st2, os) := model_run st r in (st2, model_read st keys t :: os)
+  | HGC :: r =>
+      (* compaction moves bytes inside files; it succeeds and no read changes *)
+      let '(st2, os) := model_run st r in (st2, OW 0 0 :: os)
   end.
 
 Definition model_all (c : case_t) : list hobs * list hobs * list hobs :=
@@ -97,6 +101,7 @@ Fixpoint ok_hist (s : spec_state) (l : list (hop * hobs)) : bool * spec_state * 
       if dirty then (true, s, false) else ok_hist (spec_step s o code) r
   | (HRead keys t, o) :: r =>
       if reads_ok s keys t o then ok_hist s r else (false, s, true)
+  | (HGC, OW _ _) :: r => ok_hist s r      (* the committed samples are what they were *)
   | _ :: _ => (false, s, true)
   end.
 
